@@ -30,7 +30,7 @@ def from_np(dt, arr, pool):
     arr = np.asarray(arr)
     if dt == "text":
         # text comes back as text: a bytes object is NOT the value that was written (no decoding on the harness's side)
-        return [pool.index(x) if isinstance(x, str) else -1 for x in arr.ravel()]
+        return [(pool.index(x) if x in pool else -2) if isinstance(x, str) else -1 for x in arr.ravel()]
     if dt == "float32":
         return [int(x) for x in np.ascontiguousarray(arr, dtype=np.float32).view(np.uint32).ravel()]
     if dt == "float64":
